@@ -54,8 +54,9 @@ def run_verus(path, rlimit=None, threads=None, timeout=900):
                 raw.append(l); continue
             if d.get("level") in ("error", "error: internal compiler error"):
                 diags.append({"message": d.get("message", ""), "rendered": d.get("rendered", ""),
+                              # spans in other files (vstd's own specifications, e.g. the index precondition of Vec) are not lines of the unit
                               "spans": [{"l0": s["line_start"], "l1": s["line_end"], "primary": s["is_primary"], "label": s.get("label")}
-                                        for s in d.get("spans", [])],
+                                        for s in d.get("spans", []) if os.path.basename(s.get("file_name", "")) == os.path.basename(path)],
                               "children": [c.get("message", "") for c in d.get("children", [])]})
         elif l:
             raw.append(l)
